@@ -950,6 +950,7 @@ func (e *Engine) loopEnter(s *State, fn *ssa.Function, l *loop) {
 			}
 		}
 	}
+	e.event(s, Event{Kind: "loophead", What: fmt.Sprint(l.ordinal), Pos: e.P.Pos(pos)})
 	itv := e.declare(s, "iter", "Int")
 	s.assume(app(">=", itv, "0"))
 	s.Ghost[iterKey] = itv
